@@ -17,11 +17,11 @@ open S3V S3V.SigV2 S3V.SigV2Thm
 
 /-- The region on which the code and the AWS document build the same string to sign, as a decidable
     predicate. Conjuncts: (domain) every header value is a `HeaderValue::to_str` string — otherwise the
-    request is refused with `InvalidRequest` before the signature code; (finding
-    `positional-header-repeated`) Content-MD5, Content-Type and, for header authentication, Date occur at
-    most once; (finding `xamzdate-repeated`) for header authentication x-amz-date occurs at most once;
-    (no credentials at all otherwise, `C11_expires_repeated_no_credentials`) for query authentication
-    `Expires` occurs at most once. Repeated sub-resources are *not* excluded (repaired by 05097be). -/
+    request is refused with `InvalidRequest` before the signature code; (finding `xamzdate-repeated`) for
+    header authentication x-amz-date occurs at most once; (no credentials at all otherwise,
+    `C11_expires_repeated_no_credentials`) for query authentication `Expires` occurs at most once.
+    Repeated sub-resources are *not* excluded (repaired by 05097be), nor are a repeated Content-MD5,
+    Content-Type or Date (finding `positional-header-repeated`, repaired: the comma-joined field is signed). -/
 def WF (mode : SigV2Spec.Mode) (r : SigV2Spec.Req) : Prop := wf mode r = true
 
 instance (mode : SigV2Spec.Mode) (r : SigV2Spec.Req) : Decidable (WF mode r) := by unfold WF; infer_instance
@@ -30,13 +30,22 @@ instance (mode : SigV2Spec.Mode) (r : SigV2Spec.Req) : Decidable (WF mode r) := 
 def C11_sts_impl_eq_spec_full : Prop :=
   ∀ (mode : SigV2Spec.Mode) (r : SigV2Spec.Req), valuesVisible r = true → stsImpl mode r = stsSpec mode r
 
-/-- `create_string_to_sign` (both modes: method, Content-MD5, Content-Type, Date or Expires with the
-    x-amz-date rule, canonicalised and folded x-amz-* headers, virtual-host bucket, raw path, every
-    occurrence of every whitelisted sub-resource in name order) computes the document's StringToSign on
-    every request in `WF`; the complement of `WF` is refuted in `S3V/Findings/C11.lean` -/
+/-- `create_string_to_sign` (both modes: method, Content-MD5, Content-Type, Date — each the comma-joined
+    field when sent several times — or Expires with the x-amz-date rule, canonicalised and folded x-amz-*
+    headers, virtual-host bucket, raw path, every occurrence of every whitelisted sub-resource in name
+    order) computes the document's StringToSign on every request in `WF`; the complement of `WF` is
+    refuted in `S3V/Findings/C11.lean` -/
 theorem C11_sts_impl_eq_spec_partial (mode : SigV2Spec.Mode) (r : SigV2Spec.Req) (h : WF mode r) :
     stsImpl mode r = stsSpec mode r :=
   stsImpl_eq_stsSpec mode r h
+
+/-- the three positional header elements need no side condition beyond the domain: whatever the number
+    of Content-MD5 / Content-Type / Date lines, the code signs the document's field value (the values
+    comma-joined in the order received, the empty string when absent) — this is what the repair of finding
+    `positional-header-repeated` established; a repeated header can no longer pass for an absent one -/
+theorem C11_positional_impl_eq_spec (r : SigV2Spec.Req) (name : Bytes) :
+    joinValues (getAll (implHeaders r) name) = SigV2Spec.positional r name :=
+  positional_eq r name
 
 /-- the resource part needs no side condition: bucket prefix, raw path and the signed sub-resources —
     each occurrence, sorted by name, `=value` only for non-empty values — are the document's
